@@ -165,10 +165,16 @@ def kf_ids_in(src_text):
 
 
 def load_known():
-    p = os.path.join(VERIF, 'known_findings.json')
-    if not os.path.exists(p):
-        return {'findings': [], 'fixed': []}
-    return json.load(open(p))
+    """known_findings.json plus known_findings.d/*.json (same format), merged"""
+    import glob
+    res = {'findings': [], 'fixed': []}
+    files = [os.path.join(VERIF, 'known_findings.json')] + sorted(glob.glob(os.path.join(VERIF, 'known_findings.d', '*.json')))
+    for p in files:
+        if not os.path.exists(p): continue
+        d = json.load(open(p))
+        res['findings'] += d.get('findings', [])
+        res['fixed'] += d.get('fixed', [])
+    return res
 
 
 # ------------------------------------------------------------------------------------------------ cbmc
